@@ -510,7 +510,12 @@ def source_shapes(tl, P, ann, cls, w):
     import typing
     outs = {"mapping": _outcome(lambda: tl.unmarshal(ann, dict(w))),
             "pairs": _outcome(lambda: tl.unmarshal(ann, [(k, v) for k, v in w.items()])),
-            "pairs-tuple": _outcome(lambda: tl.unmarshal(ann, tuple([k, v] for k, v in w.items())))}
+            "pairs-tuple": _outcome(lambda: tl.unmarshal(ann, tuple([k, v] for k, v in w.items()))),
+            # one-shot iterables of pairs: nothing may be lost while the shape of the source is being detected
+            "pairs-zip": _outcome(lambda: tl.unmarshal(ann, zip(list(w), list(w.values())))),
+            "pairs-generator": _outcome(lambda: tl.unmarshal(ann, ((k, v) for k, v in w.items()))),
+            "pairs-iterator": _outcome(lambda: tl.unmarshal(ann, iter([(k, v) for k, v in w.items()]))),
+            "items-view": _outcome(lambda: tl.unmarshal(ann, dict(w).items()))}
     if _json_exact(w):
         outs["json-text"] = _outcome(lambda: tl.unmarshal(ann, json.dumps(w)))
         outs["json-bytes"] = _outcome(lambda: tl.unmarshal(ann, json.dumps(w).encode()))
